@@ -270,6 +270,10 @@ func main() {
 				keys = append(append([][]byte{}, utf...), bin...)
 				vals = append(append([][]byte{}, uvals...), bvals...)
 			}
+			if seqNo%3 == 0 {
+				// values at the length-prefix boundary of the codec (the on-disk machine re-encodes every pair in its snapshot)
+				vals = append(append([][]byte{}, vals...), bytes.Repeat([]byte("x"), 127), bytes.Repeat([]byte("y"), 128), bytes.Repeat([]byte("z"), 129))
+			}
 			emit(J{"op": "reset"}, "reset")
 			classes = map[string]int{}
 			ms := map[int]machine{0: newMachine(kind), 1: newMachine(kind)}
@@ -283,6 +287,23 @@ func main() {
 				run.Violate(hx.Violation{Property: "C15", Clause: clause, Signature: kind + ":" + sig, What: what, Seq: seqNo, Ops: append([]J{}, ops...)})
 			}
 			dead := false
+			if seqNo%4 == 1 {
+				// a snapshot of the still empty machine handed over before anything was applied
+				snap0 := ms[0].snapshot()
+				c := newMachine(kind)
+				emit(J{"op": "new", "id": 1, "kind": kind}, "ok")
+				op := J{"op": "snap", "id": 0, "to": 1}
+				ops = append(ops, op)
+				if guard(func() { c.recover(snap0) }) {
+					emit(op, "panic")
+					fail("snapshot_restores_exactly", "recover-crash", kind+": installing the snapshot of an empty machine crashed the replica")
+					dead = true
+				} else {
+					ms[1] = c
+					emit(op, "ok")
+					run.Count("c15:empty_snapshot_handover")
+				}
+			}
 			// a snapshot prepared on replica 0 at some point and saved later
 			var prepCtx interface{}
 			type batch struct {
